@@ -4,9 +4,9 @@ CONSTANTS
   Tod <- TodMini
   EntAt <- EntAtY
   EntRun <- EntRunY
-  EntOk <- EntOkMini
+  EntSt <- EntStMini
   Cand <- CandA
-  Bounds <- BoundsYQ
+  Bounds <- BoundsYM
   Limits = {1, 2}
   Nows <- NowsYQ
   WithApi = FALSE
